@@ -40,8 +40,8 @@ class QLayerNorm(QModuleMixin, torch.nn.LayerNorm):
             module.eps,
             module.elementwise_affine,
             module.bias is not None,
-            dtype=module.weight.dtype,
-            device=module.weight.device,
+            dtype=None if module.weight is None else module.weight.dtype,
+            device=None if module.weight is None else module.weight.device,
             weights=None,  # We never quantize QLayerNorm weights
             activations=activations,
             optimizer=None,  # We never quantize QLayerNorm weights
